@@ -1,6 +1,7 @@
 #!/bin/bash
 # mutant.sh <patch> <PROP> [runs] — applies a patch to /repo, runs the quick check, reverts. Prints KILLED/SURVIVED.
 P=$(readlink -f $1); PROP=$2; RUNS=${3:-}
+BIN=$(dirname $(readlink -f $0))
 cd /repo || exit 2
 if ! git diff --quiet; then echo "/repo has uncommitted changes"; exit 2; fi
 git apply "$P" || { echo "patch does not apply: $P"; exit 2; }
@@ -9,7 +10,7 @@ if ! (GOFLAGS=-mod=mod GOPROXY=off go build ./... 2>/dev/null); then echo "DOES-
 if [ -n "${VF_MUT_SUITE:-}" ]; then
   GOFLAGS=-mod=mod GOPROXY=off go test -vet=off -count=1 . >/dev/null 2>&1 || { echo "EXISTING-TESTS-FAIL $P"; exit 4; }
 fi
-out=$(VF_RUNS=$RUNS VF_MIN_S=5 $(dirname $(readlink -f $0))/vfcheck run $PROP quick 2>&1); rc=$?
+out=$(VF_RUNS=$RUNS VF_MIN_S=5 $BIN/vfcheck run $PROP quick 2>&1); rc=$?
 if [ $rc -eq 1 ]; then echo "KILLED $PROP $(basename $P): $(echo "$out" | grep -m1 'class=' | cut -c1-200)";
 elif [ $rc -eq 0 ]; then echo "SURVIVED $PROP $(basename $P)"; else echo "TROUBLE($rc) $PROP $(basename $P): $(echo "$out" | tail -5)"; fi
 find /verif/replays -type f -newer "$P" -delete 2>/dev/null
